@@ -25,6 +25,7 @@
 #include <cstdint>
 #include <cstring>
 #include <limits>
+#include <memory>
 #include <stdexcept>
 #include <optional>
 #include <sstream>
@@ -960,16 +961,45 @@ class Interp {
         // factor vb[b] (orders 0..1 to keep result orders small), operand va[a]
         if constexpr (ob <= 1) {
           if (partial) nt_c09 = true;
-          bool must = differ && sa.containsIntervals() && (unsigned)op.a % 4 != 3;
+          const unsigned variant = (unsigned)op.a % 6;
+          bool must = differ && sa.containsIntervals() && variant != 3;
           bool ok = call("SplineOperator application", must, [&] {
-            switch ((unsigned)op.a % 4) {
+            switch (variant) {
               case 0: store_spline(ops::SplineOperator{vb[b]} * va[a], fam(ka, a)); break;
               case 1: store_spline((ops::SplineOperator{vb[b]} * ops::Dx<0>{} + ops::Dx<1>{}) * va[a], fam(ka, a)); break;
               case 2: (void)bspline::integration::LinearForm{ops::X<1>{} * ops::SplineOperator{vb[b]}}(va[a]); break;
+              case 4: {
+                // operator objects are values: a COPY made from a named operator (and forms / compounds built from the
+                // copy) stays usable after the operator it was copied from has been destroyed
+                auto src = std::make_unique<ops::SplineOperator<T, ob>>(vb[b]);
+                ops::SplineOperator<T, ob> cp(*src);
+                bspline::integration::LinearForm<ops::SplineOperator<T, ob>> lf(cp);
+                bspline::integration::BilinearForm<ops::SplineOperator<T, ob>, ops::SplineOperator<T, ob>> bf(*src, cp);
+                auto compound = ops::Dx<0>{} * ops::SplineOperator<T, ob>(cp) + ops::SplineOperator<T, ob>(*src);
+                src.reset();
+                store_spline(cp * va[a], fam(ka, a));
+                (void)lf(va[a]); (void)bf(va[a], va[a]); (void)(compound * va[a]);
+                break;
+              }
+              case 5: {
+                // copy ASSIGNMENT over an operator that held another factor, then the source dies / is overwritten
+                ops::SplineOperator<T, ob> other(vb[(b + 1) % vb.size()]);
+                auto src = std::make_unique<ops::SplineOperator<T, ob>>(vb[b]);
+                other = *src;
+                *src = ops::SplineOperator<T, ob>(Spline<T, ob>(sb.getGrid()));  // source now holds an interval-free factor
+                ops::SplineOperator<T, ob> moved(std::move(*src));
+                src.reset();
+                auto r1 = other * va[a];
+                auto r0 = ops::SplineOperator{vb[b]} * va[a];
+                if ((focus & (F_C09 | F_C14)) && !snap(r1).same(snap(r0))) fail(focus & F_C09 ? "C09" : "C14", "a copy-assigned SplineOperator does not act as the factor it was assigned from");
+                store_spline(std::move(r1), fam(ka, a));
+                (void)(moved * va[a]);
+                break;
+              }
               default: break;  // handled below
             }
           }, F_C08);
-          if ((unsigned)op.a % 4 == 3) {
+          if (variant == 3) {
             // bilinear form with a spline factor: the grid guard is reached only on intervals common to both operands
             size_t a2 = (a + 1) % va.size();
             touch(ka, a2);
